@@ -121,7 +121,7 @@ def guarded(fn, *a, **kw):
 
 
 def solver_options(tier="quick"):
-    return {"threads": 1, "time_limit": 30 if tier == "quick" else 120}
+    return {"threads": 1, "time_limit": 15 if tier == "quick" else 120}
 
 
 def check_repo_binding():
